@@ -42,7 +42,7 @@ var c19Rec = vt.NewRecorder("C19", "TestC19",
 		"Non-trivial = a bad entry adjacent (in name order) to a good one, or an all-bad / empty directory")
 
 var c19EnumRec = vt.NewRecorder("C19", "TestC19Enum",
-	"fault enumeration: every kind pattern of length 0-4 over the 7 entry kinds (1+7+49+343+2401 directories) with fixed increasing names, and every position of a single bad entry of every kind in runs of 5-8 good files")
+	"fault enumeration: every kind pattern of length 0-4 over the 7 entry kinds (1+7+49+343+2401 directories) with fixed increasing names, and every position of a single bad entry of every kind in runs of 5-8 good files, and runs of 31/32/33/64/65/100 consecutive bad entries of each kind between two good files")
 
 func init() {
 	registerReplay("C19", "TestC19", checkC19)
@@ -279,6 +279,21 @@ func TestC19(t *testing.T) {
 		n := rapid.IntRange(0, 10).Draw(t, "nEntries")
 		var c CaseC19
 		used := map[string]bool{}
+		if rapid.IntRange(0, 19).Draw(t, "longBadRun") == 0 {
+			// a long run of consecutive bad entries between good files
+			run := rapid.SampledFrom([]int{31, 32, 33, 64, 65, 130}).Draw(t, "badRunLen")
+			c.Entries = append(c.Entries, c19Entry("good", "a-first", 0, 1, nil))
+			used["a-first"] = true
+			for i := 0; i < run; i++ {
+				kind := rapid.SampledFrom(c19Kinds[1:]).Draw(t, "badKind")
+				name := fmt.Sprintf("b-%03d", i)
+				used[name] = true
+				e := c19Entry(kind, name, i, i, nil)
+				c.Entries = append(c.Entries, e)
+			}
+			c.Entries = append(c.Entries, c19Entry("good", "c-last", 5, 2, nil))
+			used["c-last"] = true
+		}
 		for i := 0; i < n; i++ {
 			name := fmt.Sprintf(rapid.SampledFrom(c19NameShapes).Draw(t, "nameShape"), rapid.IntRange(0, 12).Draw(t, "nameN"))
 			if used[name] {
@@ -314,22 +329,11 @@ func TestC19Enum(t *testing.T) {
 		maxLen = 4
 		c19EnumRec.Exhaustive = true
 	} else {
-		c19EnumRec.Rule = "fault enumeration (quick tier): every kind pattern of length 0-3 over the 7 entry kinds (1+7+49+343 directories), and every position of a single bad entry of every kind in runs of 5 good files; the thorough tier goes to length 4"
+		c19EnumRec.Rule = "fault enumeration (quick tier): every kind pattern of length 0-3 over the 7 entry kinds (1+7+49+343 directories), every position of a single bad entry of every kind in runs of 5 good files, runs of 31-100 consecutive bad entries of each kind between two good files; the thorough tier goes to length 4"
 		c19EnumRec.Exhaustive = true
 	}
 	idx := 0
-	run := func(c CaseC19, label string) {
-		idx++
-		if idx%shards != shard {
-			return
-		}
-		c19EnumRec.Eval(label)
-		_, nt := c19Classify(c)
-		if nt {
-			c19EnumRec.NontrivialCase(vt.Fingerprint(c), func() any { return describe(c.Entries) })
-		}
-		vt.Run(t, c19EnumRec, c, checkC19)
-	}
+	run := func(c CaseC19, label string) { c19EnumRun(c, label, &idx, shard, shards, t) }
 	for l := 0; l <= maxLen; l++ {
 		total := 1
 		for i := 0; i < l; i++ {
@@ -343,6 +347,20 @@ func TestC19Enum(t *testing.T) {
 				x /= len(c19Kinds)
 			}
 			run(c, fmt.Sprintf("pattern-length-%d", l))
+		}
+	}
+	// long runs of one bad kind between two good files
+	for _, run := range []int{31, 32, 33, 64, 65, 100} {
+		for _, kind := range c19Kinds[1:] {
+			var c CaseC19
+			c.Entries = append(c.Entries, c19Entry("good", "a", 0, 0, nil))
+			for i := 0; i < run; i++ {
+				c.Entries = append(c.Entries, c19Entry(kind, fmt.Sprintf("b%03d", i), i, i, nil))
+			}
+			c.Entries = append(c.Entries, c19Entry("good", "c", 3, 1, nil))
+			run2 := run
+			_ = run2
+			c19EnumRun(c, "long-bad-run", &idx, shard, shards, t)
 		}
 	}
 	runs := []int{5}
@@ -365,6 +383,25 @@ func TestC19Enum(t *testing.T) {
 			}
 		}
 	}
+}
+
+func c19EnumRun(c CaseC19, label string, idx *int, shard, shards int, t *testing.T) {
+	*idx++
+	if *idx%shards != shard {
+		return
+	}
+	c19EnumRec.Eval(label)
+	_, nt := c19Classify(c)
+	if nt {
+		c19EnumRec.NontrivialCase(vt.Fingerprint(c), func() any {
+			d := describe(c.Entries)
+			if len(d) > 12 {
+				d = append(append([]string{}, d[:6]...), fmt.Sprintf("... %d more ...", len(d)-8), d[len(d)-2], d[len(d)-1])
+			}
+			return d
+		})
+	}
+	vt.Run(t, c19EnumRec, c, checkC19)
 }
 
 // TestC19CLI compares the CLI's journal command with the library path for a few directories (thorough tier).
